@@ -62,8 +62,16 @@ def run(ctx):
     # CASE wins over IGNORECASE whatever else is set: the case-sensitive language with both flags given (and FORCEUNIX)
     ev4, nt4, mism4 = corr.search_den(rasts + ['l41.l62', 'b0[r41-43].l78', 'xA(l41.l62;l63.l44).l65', 'xN(l41.l62)', 'l72.s.l45'],
                                       [(0, 1, 0), (0, 0, 0)], maxlen=3, extra='aBe', extra_flags=Fm.IGNORECASE)
-    ev, nt = ev + ev2 + ev4, nt + nt2 + nt4
-    mism = dmism + mism + mism2 + mism4
+    # the characters that open an extended group when `(` follows are plain literals otherwise - with EXTMATCH on, at the
+    # start of the name and later, before a wildcard, a bracket, a dot
+    xlits = []
+    for c_ in ('2b', '40', '21'):
+        for rest_ in ('s', 'q', 's.l61', 'l61.s', 'b0[c61,c62]', 'l2e.s', 'q.s', 'l2b.s', 'xA(l61).s', 'e2a.s'):
+            xlits.append('l%s.%s' % (c_, rest_))
+            xlits.append('l61.l%s.%s' % (c_, rest_))
+    ev5, nt5, mism5 = corr.search_den(xlits, [(0, 0, 0), (0, 1, 0)], maxlen=3, extra='a.', extra_flags=Fm.EXTMATCH)
+    ev, nt = ev + ev2 + ev4 + ev5, nt + nt2 + nt4 + nt5
+    mism = dmism + mism + mism2 + mism4 + mism5
     # POSIX classes are the C-locale ones for str as for bytes: no code point above 0x7f is in any of them (case-sensitive mode)
     ncls = 0
     classes = ['alnum', 'alpha', 'ascii', 'blank', 'cntrl', 'digit', 'graph', 'lower', 'print', 'punct', 'space', 'upper', 'word', 'xdigit']
@@ -84,6 +92,37 @@ def run(ctx):
                                        {'name': name_, 'pattern': form, 'class': cl, 'code_point': ord(ch_), 'got': got})
                     break
     ctx.counted('POSIX classes on non-ASCII code points', ncls, ncls // 2, [{'pattern': '[[:digit:]]', 'name': '\u0663'}])
+    # a backslash-escaped character inside a bracket expression is that character, whatever it is (str and bytes)
+    nesc = 0
+    alln = [chr(o) for o in range(32, 127)] + ['a]', '/]', '[]', 'ab', '']
+    for o in range(33, 127):
+        c_ = chr(o)
+        for form, member in (('[\\%s]', lambda n_: n_ == c_), ('[a\\%s]', lambda n_: n_ in ('a', c_)), ('[!\\%sx]', lambda n_: len(n_) == 1 and n_ not in (c_, 'x')),
+                             ('z[\\%s-\\%s]', None)):
+            if member is None:
+                pat_ = form % (c_, c_)
+                names_ = ['z' + n_ for n_ in alln]
+                want = [n_ == 'z' + c_ for n_ in names_]
+            else:
+                pat_ = form % c_
+                names_ = alln
+                want = [member(n_) for n_ in names_]
+            for fl_ in (Fm.FORCEUNIX | Fm.DOTMATCH, Fm.FORCEUNIX | Fm.DOTMATCH | Fm.EXTMATCH | Fm.CASE):
+                nesc += len(names_)
+                try:
+                    cm_ = Fm.compile(pat_, flags=fl_)
+                    got = [cm_.match(n_) for n_ in names_]
+                    cb_ = Fm.compile(pat_.encode(), flags=fl_)
+                    gotb = [cb_.match(n_.encode()) for n_ in names_]
+                except Exception as ex_:
+                    ctx.counterexample('fnmatch.compile(%r) raises %s' % (pat_, type(ex_).__name__), {'pattern': pat_, 'flags': corr.flag_names(fl_)})
+                    break
+                if got != want or gotb != want:
+                    k_ = next(i for i in range(len(want)) if got[i] != want[i] or gotb[i] != want[i])
+                    ctx.counterexample('fnmatch(%r, %r, %s) = %r (bytes %r): an escaped character in a bracket expression is that character' % (
+                        names_[k_], pat_, corr.flag_names(fl_), got[k_], gotb[k_]), {'name': names_[k_], 'pattern': pat_, 'flags': corr.flag_names(fl_)})
+                    break
+    ctx.counted('escaped members of bracket expressions', nesc, nesc // 3, [{'pattern': '[a\\/]', 'name': '/'}])
     hits, rest = common.attribute(
         ctx, mism, classifiers(),
         lambda m: 'fnmatch %s(%r, %r, %s) = %r but the documented language says %s' % (
